@@ -57,6 +57,16 @@ def run(ck, prog):
     ck.anchor(wl is not None, "work-list loop (VecDeque::pop_front) not found in collect_sources")
     h, blocks, popb = wl
     pushes = [i for i in blocks if b.term(i)["k"] == "call" and (Body.callee(b.term(i)) or "").endswith("push_back")]
+    if not pushes:
+        # `includes.for_each(|inc| { .. files.push_back(..) })`: the call that runs the closure stands for the push
+        for i in blocks:
+            t = b.term(i)
+            if t["k"] != "call":
+                continue
+            for ga in (t["f"].get("args") or []):
+                cb_ = prog.body(ga.get("closure")) if isinstance(ga, dict) and ga.get("closure") else None
+                if cb_ is not None and cb_.parent == b.path and any((Body.callee(tt) or "").endswith("push_back") for _, tt in cb_.calls()):
+                    pushes.append(i)
     if pushes:
         ok, why = worklist_bounded(prog, b, h, blocks, popb, pushes)
     else:
@@ -135,23 +145,28 @@ def run(ck, prog):
 
     # ---- R16.6 every resolved include statement is recorded in the include map -----------
     ck.rule("R16.6", "each include statement that resolves gets its own entry in the resolved-include map")
-    tests = [t for t in brackets.option_tests(b, prog) if (t["src_callee"] or "").endswith("resolve_include_file")]
-    ck.anchor(tests, "the test of resolve_include_file's result was not found in collect_sources")
-    inserts = set()
-    for i, t in b.calls():
-        if re.search(r"HashMap::<[^>]*>::insert$", Body.callee(t) or "") and len(t["args"]) >= 3:
-            vo = prov.origins(b, t["args"][2])
-            if any(x[0] == "call" and x[1].endswith("resolve_include_file") for x in vo):
-                inserts.add(i)
-    for t in tests:
-        # from the resolved edge, no path returns to an enclosing loop head or to return without the insert
-        heads = {hh for hh, bl in loops if t["bb"] in bl}
-        p = cfg.path_exists(b, t["some_target"], lambda x: x in heads or b.term(x)["k"] == "return", avoid=inserts,
-                            include_src=True)
-        ck.ob("R16.6", "map-entry", p is None and bool(inserts),
-              "on the resolved branch every path records (include statement -> file) in the map before the next statement",
-              msg="collect_sources: a resolved include statement can be skipped without an entry in the resolved-include "
-                  "map (that statement then has no link and is reported 'include file not found')")
+    # (the per-include work may sit in the loop body or in a closure handed to for_each: the closure's return is then the
+    # way to the next include)
+    found_test = False
+    for rb in [b] + prog.closures_of(b.path):
+        tests = [t for t in brackets.option_tests(rb, prog) if (t["src_callee"] or "").endswith("resolve_include_file")]
+        if not tests:
+            continue
+        found_test = True
+        rloops = cfg.loops(rb)
+        inserts = set()
+        for i, t in rb.calls():
+            if re.search(r"HashMap::<[^>]*>::insert$", Body.callee(t) or "") and len(t["args"]) >= 3:
+                vo = prov.origins(rb, t["args"][2])
+                if any(x[0] == "call" and x[1].endswith("resolve_include_file") for x in vo):
+                    inserts.add(i)
+        for t in tests:
+            # from the resolved edge, no path returns to an enclosing loop head or to return without the insert
+            heads = {hh for hh, bl in rloops if t["bb"] in bl}
+            p = cfg.path_exists(rb, t["some_target"], lambda x: x in heads or rb.term(x)["k"] == "return", avoid=inserts,
+                                include_src=True)
+            r166_ob(ck, p, inserts)
+    ck.anchor(found_test, "the test of resolve_include_file's result was not found in collect_sources")
     include_targets(ck, prog, b, "R16.6")
     sets = [(i, t) for i, t in b.calls() if (t["f"].get("decl") or Body.callee(t) or "").endswith("set_resolved_include_map")]
     ok = bool(sets)
@@ -357,7 +372,11 @@ def include_targets(ck, prog, b, rule):
     statement)"""
     n = 0
     bad = []
-    for i, t in b.calls():
+    outer = b
+    sites = [(outer, i, t) for i, t in outer.calls()]
+    for cb_ in prog.closures_of(outer.path):
+        sites += [(cb_, i, t) for i, t in cb_.calls()]
+    for b, i, t in sites:
         c = Body.callee(t) or ""
         which = None
         gargs = [g.get("ty") for g in (t["f"].get("args") or []) if isinstance(g, dict)]
@@ -373,10 +392,17 @@ def include_targets(ck, prog, b, rule):
         n += 1
         foreign = [x for x in vo if not (x[0] == "call" and str(x[1]).endswith("resolve_include_file"))]
         if foreign:
-            bad.append((i, sorted(str(x[:2]) for x in foreign)))
+            bad.append((b.where(i), sorted(str(x[:2]) for x in foreign)))
     ck.ob(rule, "include-target-source", not bad and n >= 2,
           "%d sinks (include map / work list) receive only results of resolve_include_file" % n,
           msg="collect_sources records or queues an include target that does not come from resolve_include_file for that "
               "statement (%s): a memo keyed by the include string ignores the including file's directory, an entry kept from "
               "an earlier walk belongs to whatever statement occupied that range then" % (
-                  "; ".join("[%s] from %s" % (b.where(i), o[:2]) for i, o in bad) or "no sink found"))
+                  "; ".join("[%s] from %s" % (w, o[:2]) for w, o in bad) or "no sink found"))
+
+
+def r166_ob(ck, p, inserts):
+    ck.ob("R16.6", "map-entry", p is None and bool(inserts),
+          "on the resolved branch every path records (include statement -> file) in the map before the next statement",
+          msg="collect_sources: a resolved include statement can be skipped without an entry in the resolved-include "
+              "map (that statement then has no link and is reported 'include file not found')")
